@@ -549,28 +549,84 @@ def rule_collect_outermost(ctx):
     r.instance("Deferred::call only from Bag::drop", ok)
     if not ok:
         r.violate("ebr_impl::deferred::Deferred::call", "callers", "deferred functions are run from %s" % names)
-    # repin_without_collect callers
-    rc = prog.callers_of(REPIN_NC)
-    for (x, bi, t, c) in rc:
-        hx = prog.home(x.name)
-        if hx == UNPIN:
-            ok = True
-            why = "inside the collecting loop of unpin"
-        elif hx == "utils::dispose_general_node":
-            ok = True
-            why = "runs only inside deferred functions (CW-DEFERRED-ONLY) and itself, with no user frame on the stack: " \
-                  "pop_edges / Drop of the node have returned"
-        else:
-            # anything else - schedule_collection, flush, defer, incr_manual_collection .. - is reached from user
-            # destructors and pop_edges (a dropped Rc flushes every 64th time, a full bag is pushed), which may hold a
-            # guard of their own with Snapshots (F10)
-            ok = False
-            why = "reachable from user destructors"
-        r.instance("repin_without_collect <- %s (%s)" % (x.name, why[:60]), ok)
-        if not ok:
-            r.violate(x.name, "repin_without_collect", "re-pins the thread in a function that user destructors and pop_edges "
-                      "reach (dropping an Rc flushes periodically; a full bag is pushed) - also while collecting: a "
-                      "destructor that holds a guard of its own loses the protection of its Snapshots", x.loc(bi))
+    # repin_without_collect moves the thread's epoch in the middle of whatever critical sections are open on it.
+    #  * F10: it may only be reached from the collecting loop of unpin and from the cascade - everything else
+    #    (schedule_collection, flush, defer ..) is reached from user destructors, which may hold guards with Snapshots;
+    #  * F13: even there a guard that a destructor created earlier in the collection and kept alive (parked, leaked with
+    #    Box::leak) may hold Snapshots: the call must be gated by a test that the guards counted are exactly the
+    #    collection's own - `guard_count == (collecting ? 1 : 0) + own`, own = 0 in unpin's loop, 1 under dispose's cs().
+    OWN = {UNPIN: (0, "the guard being unpinned is the base"), "utils::dispose_general_node": (1, "dispose holds one cs() guard")}
+    ex_g = Exec(prog, unroll=2)
+
+    def gated_sites(fname, seen):
+        """[(root function, `own` term or None, gate ok, event)] for every way REPIN_NC is reached through fname"""
+        out = []
+        for (x, bi, t_, c_) in prog.callers_of(fname):
+            for rn in prog.path_roots(x.name):
+                if (rn, x.name, bi, fname) in seen:
+                    continue
+                seen.add((rn, x.name, bi, fname))
+                rb_ = prog.body(rn)
+                for p in ex_g.paths(rb_):
+                    ev = [(i_, e) for i_, e in enumerate(p.events) if e.kind == "call" and e.target == fname and e.bb == bi and e.body is x]
+                    if not ev:
+                        continue
+                    i_, e = ev[0]
+                    # (a test made before the collection ran says nothing about guards its destructors created)
+                    lastc = max([k for k, q in enumerate(p.events[:i_]) if q.kind == "call" and q.target == COLLECT] or [-1])
+                    gate = [q for k, q in enumerate(p.events[:i_]) if k > lastc and q.kind == "cond" and isinstance(q.term, tuple)
+                            and q.term[0] == "bin" and q.term[1] == "Eq" and q.value == 1 and
+                            any(_cell_get(z, "Local.guard_count") for z in (q.term[2], q.term[3]))]
+                    out.append((rn, x, e, gate[-1] if gate else None))
+                    break
+        return out
+    seen_g = set()
+    work = [(REPIN_NC, None)]
+    nrep = 0
+    while work:
+        (fn, _) = work.pop()
+        for (rn, x, e, gate) in gated_sites(fn, seen_g):
+            nrep += 1
+            # the gate lives in a helper (repin_unless_foreign_guards(own)): judge `own` at the callers of that helper
+            if gate is not None and rn not in OWN:
+                ownp = [k for k in range(1, prog.body(rn).arg_count + 1) if prog.body(rn).local_ty(k) == "usize"]
+                for (cx, cbi, ct, cc) in prog.callers_of(rn):
+                    for crn in prog.path_roots(cx.name):
+                        exp = OWN.get(crn)
+                        okc = False
+                        shown = "?"
+                        for p in ex_g.paths(prog.body(crn)):
+                            ev = [q for q in p.events if q.kind == "call" and q.target == rn and q.bb == cbi and q.body is cx]
+                            if ev and ownp:
+                                v = const_of(ev[0].args[ownp[0] - 1])
+                                shown = v
+                                okc = exp is not None and v == exp[0]
+                                break
+                        r.instance("%s repins through %s(own = %s)%s" % (crn.split("::")[-1], rn.split("::")[-1], shown,
+                                                                         " - " + exp[1] if exp else ""), okc)
+                        if not okc:
+                            r.violate(crn, "repin_without_collect", "re-pins the thread%s: %s" % (
+                                " with own = %s guards" % shown if exp is not None else "",
+                                "the number of guards the caller itself holds is %s" % exp[0] if exp is not None else
+                                "this function is reached from user destructors and pop_edges (dropping an Rc flushes "
+                                "periodically; a full bag is pushed), which may hold guards of their own with Snapshots"),
+                                cx.loc(cbi))
+                continue
+            ok = rn in OWN and gate is not None
+            why = "gated by guard_count == own" if ok else ("NOT gated by the guard count" if rn in OWN else "reachable from user destructors")
+            r.instance("repin_without_collect <- %s (%s)" % (rn.split("::")[-1], why), ok)
+            if not ok:
+                if rn in OWN:
+                    r.violate(rn, "repin-ungated", "re-pins the thread without testing that no guard other than the "
+                              "collection's own is alive: a guard a destructor created earlier in this collection and kept "
+                              "(parked, leaked) loses the protection of its Snapshots", e.loc())
+                else:
+                    r.violate(rn, "repin_without_collect", "re-pins the thread in a function that user destructors and "
+                              "pop_edges reach (dropping an Rc flushes periodically; a full bag is pushed) - also while "
+                              "collecting: a destructor that holds a guard of its own loses the protection of its Snapshots",
+                              e.loc())
+    if nrep < 1 and not r.violations:
+        r.floor_failures.append("EBR-COLLECT-OUTERMOST: no call site of repin_without_collect found")
     r.require(n, 1, "collect call paths")
     return r
 
@@ -688,6 +744,54 @@ def rule_cell_rmw(ctx):
                               "that code did to the counter is lost" % (cell, sorted({q.target.split("::")[-1] for q in between})),
                               e.loc())
     r.require(n, 3, "read-modify-write pairs on Local counters")
+    return r
+
+
+# ------------------------------------------------------------------------------------------
+def rule_unwind_restore(ctx):
+    """A user destructor may panic (and the panic be caught).  Where the collector runs user code between two halves of
+    a state change, the second half must also happen on the unwind edge."""
+    r = RuleResult("EBR-UNWIND-RESTORE", ["C04", "C15"],
+                   "the calls that run user destructors (Global::collect in unpin, Deferred::call in Bag::drop) have an "
+                   "unwind edge that restores the participant's state / runs the remaining deferred functions")
+    prog = ctx.prog
+    BAGDROP = "<ebr_impl::internal::Bag as std::ops::Drop>::drop"
+    for (fn, callee, what, why) in (
+            (UNPIN, COLLECT, "collect",
+             "if a destructor run by the collection panics, unpin never clears `collecting` (nor the thread-wide flag), never "
+             "decrements guard_count and never unpins: the thread stays pinned with no live guard, the global epoch cannot "
+             "advance any more and nothing is reclaimed again by any thread"),
+            (BAGDROP, "ebr_impl::deferred::Deferred::call", "call",
+             "if one deferred function panics, the remaining ones of the bag are never run (their objects are never "
+             "destructed)")):
+        b = prog.body(fn)
+        r.functions.add(fn)
+        found = False
+        ok = False
+        # (the call may sit in a closure or in a helper a refactoring split off: every caller that belongs to fn)
+        names = {x.name for (x, _, _, _) in prog.callers_of(callee) if fn in prog.path_roots(x.name)} | {fn}
+        for name in sorted(names):
+            bb_ = prog.body(name)
+            for bi, blk in enumerate(bb_.blocks):
+                tm = blk["term"]
+                if tm["k"] != "call" or (Callee(tm).target or "") != callee:
+                    continue
+                found = True
+                u = tm.get("unwind")
+                seen = set()
+                while u is not None and u not in seen:
+                    seen.add(u)
+                    tt = bb_.blocks[u]["term"]
+                    if tt["k"] == "drop" and ("ScopeGuard" in tt["ty"] or ctx.ex._new_drop_impl(tt["ty"]) is not None):
+                        ok = True
+                        break
+                    u = tt.get("target")
+        if not found:
+            raise AnalysisError("EBR-UNWIND-RESTORE: call of %s not found in %s" % (callee, fn))
+        r.instance("%s: the unwind edge of %s() runs a restoring guard" % (fn.split("::")[-1] if "Bag" not in fn else "Bag::drop",
+                                                                          what), ok)
+        if not ok:
+            r.violate(fn, "unwind:" + what, why, b.loc(0))
     return r
 
 
